@@ -311,14 +311,20 @@ class Gen(object):
     tref = view.tables[tid]["ref"]
     dcols = view.data_cols(tid)
     k = r.randint(0, min(2, len(dcols)))
-    gb = sorted(view.tables[tid]["cols"][c][0] for c in r.sample(dcols, k))
+    chosen = r.sample(dcols, k)
+    listcols = [c for c in dcols if view.tables[tid]["cols"][c][1].split(':')[0] in ('ChoiceList', 'RefList')]
+    if listcols and r.random() < 0.5:
+      chosen = (chosen[:1] + [r.choice(listcols)]) if r.random() < 0.5 else [r.choice(listcols)]
+    gb = sorted({view.tables[tid]["cols"][c][0] for c in chosen})
     views = view.views()
     vref = r.choice(views + [0]) if views else 0
     return ['CreateViewSection', tref, vref, 'record', gb, None]
 
   def ua_update_summary(self, view, tid):
     r = self.rng
-    secs = [s for s in view.sections() if s[3]]
+    # only sections placed on a page: the raw / record-card sections of a summary table are not
+    # something a user can regroup
+    secs = [s for s in view.sections() if s[3] and s[2]]
     if not secs:
       return None
     sec = r.choice(secs)
@@ -450,6 +456,44 @@ class Gen(object):
         choices.append(['AddColumn', t, cols[0], {'type': 'Int', 'isFormula': False, 'formula': ''}])
       choices.append(['AddTable', t, [{'id': 'A', 'type': 'Int', 'isFormula': False, 'formula': ''}]])
     return r.choice(choices)
+
+  # ---- profile set-up: a few bundles that make the interesting structures exist early ----
+  def setup_bundles(self):
+    r = self.rng
+    col = lambda i, t: {'id': i, 'type': t, 'isFormula': False, 'formula': ''}
+    if self.profile in ("twoway", "refs"):
+      out = [
+        [['AddTable', 'People', [col('name', 'Text'), col('age', 'Int')]]],
+        [['AddTable', 'Tasks', [col('title', 'Text'), col('owner', 'Ref:People'),
+                                col('helpers', 'RefList:People'), col('tag', 'Choice')]]],
+        [['BulkAddRecord', 'People', [None] * 4, {'name': ['a', 'b', 'c', 'd'], 'age': [1, 2, 3, 2]}]],
+        [['BulkAddRecord', 'Tasks', [None] * 4, {'title': ['t1', 't2', 't3', 't4'], 'owner': [1, 2, 0, 2],
+                                                'helpers': [['L', 1, 2], None, ['L', 3], ['L', 2, 4]]}]],
+      ]
+      if self.profile == "twoway":
+        out.append([['AddReverseColumn', 'Tasks', r.choice(['owner', 'helpers'])]])
+        if r.random() < 0.5:
+          out.append([['AddReverseColumn', 'Tasks', 'owner'], ['AddReverseColumn', 'Tasks', 'helpers']][r.random() < 0.5:][:1])
+      return out
+    if self.profile == "summary":
+      return [
+        [['AddTable', 'People', [col('name', 'Text')]]],
+        [['AddTable', 'Orders', [col('amount', 'Int'), col('kind', 'Choice'), col('tags', 'ChoiceList'),
+                                 col('who', 'RefList:People'), col('buyer', 'Ref:People')]]],
+        [['BulkAddRecord', 'People', [None] * 3, {'name': ['a', 'b', 'c']}]],
+        [['BulkAddRecord', 'Orders', [None] * 5, {
+          'amount': [1, 2, 1, 3, 2], 'kind': ['a', 'b', 'a', '', 'c'],
+          'tags': [['L', 'a', 'b'], None, ['L', 'b'], ['L'], ['L', 'a', 'a']],
+          'who': [['L', 1, 2], None, ['L', 3], ['L', 2], None], 'buyer': [1, 2, 0, 3, 1]}]],
+      ]
+    if self.profile == "views":
+      return [
+        [['AddTable', 'People', [col('name', 'Text'), col('age', 'Int')]]],
+        [['AddTable', 'Tasks', [col('title', 'Text'), col('owner', 'Ref:People')]]],
+        [['BulkAddRecord', 'People', [None] * 3, {'name': ['a', 'b', 'c'], 'age': [1, 2, 3]}]],
+        [['BulkAddRecord', 'Tasks', [None] * 3, {'title': ['t1', 't2', 't3'], 'owner': [1, 2, 0]}]],
+      ]
+    return []
 
   # ---- bundle ----
   def user_action(self, view):
